@@ -305,6 +305,18 @@ void run_sv(const Workload& w, Result& res) {
             // The statement is about SimpleVector's element *lifetimes* (alive <=> stored), not its contents:
             // differences from the value model are counted, not judged. "Stored" is what the container reports.
             if (v[s]->size() != m[s].size()) res.probe("beyond_c16.sv_size_differs_from_model");
+            // "stored" is also what the iterator range spans: every element of [begin(), end()) / [data(), data()+size())
+            // is touched (the ledger flags a dead one), through the const overloads too
+            if (tracked) {
+                const SV& cv = *v[s];
+                size_t cnt = 0; long sink = 0;
+                for (auto it = v[s]->begin(); it != v[s]->end(); ++it, ++cnt) sink += val(*it);
+                for (auto it = cv.cbegin(); it != cv.cend(); ++it) sink += val(*it);
+                for (size_t k = 0; k < cv.size(); ++k) { sink += val(cv.data()[k]); sink += val(cv[k]); }
+                if (cnt != v[s]->size() || cv.end() - cv.begin() != std::ptrdiff_t(cv.size()) || (cv.size() && (cv.data() != cv.begin() || v[s]->data() != v[s]->begin())))
+                    res.fail("sv_lifetime", "[begin(), end()) / data() does not span the size() stored elements, after " + at);
+                if (sink == 0x7fffffffffff) res.probe("never");
+            }
             for (size_t k = 0; k < m[s].size() && k < v[s]->size(); ++k)
                 if (known[s][k] && val((*v[s])[k]) != m[s][k]) { res.probe("beyond_c16.sv_value_differs_from_model"); break; }
         }
